@@ -14,9 +14,21 @@ From Coq Require Import List ZArith Bool Arith.
 From PV Require Import Base.Exn Model.Dataclass.
 Import ListNotations.
 
-(* ---- C10: "every field value conforms to its field annotation" (for an arbitrary checker) *)
-Definition all_conform (check : heap -> ann -> value -> bool) (h : heap) (fs : list field) (r : nat) : bool :=
-  forallb (fun f => match getattr h r (f_name f) with Some v => check h (f_ann f) v | None => false end) fs.
+(* ---- C10: "every field value conforms to its field annotation" (for an arbitrary checker:
+   `check h a v` is `Ok tt` when v is accepted for a, and the exception otherwise) *)
+Definition accepts (x : outcome unit) : bool := match x with Ok _ => true | Raise _ => false end.
+Definition all_conform (check : heap -> ann -> value -> outcome unit) (h : heap) (fs : list field) (r : nat) : bool :=
+  forallb (fun f => match getattr h r (f_name f) with Some v => accepts (check h (f_ann f) v) | None => false end) fs.
+(* the exception of the first field (declaration order) that does not conform *)
+Fixpoint first_reject (check : heap -> ann -> value -> outcome unit) (h : heap) (fs : list field) (r : nat) : option exn :=
+  match fs with
+  | [] => None
+  | f :: rest =>
+    match getattr h r (f_name f) with
+    | Some v => match check h (f_ann f) v with Ok _ => first_reject check h rest r | Raise e => Some e end
+    | None => Some AttributeErrorC
+    end
+  end.
 
 Definition is_check (e : event) : bool := match e with ECheck _ _ => true | EPi _ => false end.
 
